@@ -243,7 +243,7 @@ func (e *Engine) verifyFunction(fn *ssa.Function, fc *FuncContract) (c *Ctx) {
 
 func (e *Engine) prelude(c *Ctx) string {
 	var sb strings.Builder
-	sb.WriteString("(set-option :produce-models true)\n(set-logic ALL)\n(declare-sort Str 0)\n")
+	sb.WriteString("(set-option :produce-models true)\n(set-logic ALL)\n(declare-sort Str 0)\n(declare-sort Beh 0)\n")
 	for _, name := range e.dtOrder {
 		dt := e.dtypes[name]
 		sb.WriteString("(declare-datatypes ((" + dt.Name + " 0)) (((" + dt.Ctor)
